@@ -90,9 +90,9 @@ def ip6_class(t):
 
 
 def unsupported_valid6(t):
-    """valid RFC 4291 text in which '::' stands for exactly one group: the constructor's segment-count test (len(segs) > 8)
-    refuses these (rejected, not mis-parsed — tolerated by the oracle and counted in the evidence)"""
-    if "::" not in t or ref_ip6(t) is None: return False
+    """valid RFC 4291 text with a leading or trailing '::' that stands for exactly one group (`unsupported6` of the Lean spec,
+    theorem ip6_parse_spec): the constructor's segment-count test (len(segs) > 8) refuses these (rejected, not mis-parsed — tolerated by the oracle and counted in the evidence)"""
+    if ref_ip6(t) is None or not (t.startswith("::") or t.endswith("::")): return False
     fields = [f for f in t.split(":") if f]
     return sum(2 if "." in f else 1 for f in fields) == 7
 
@@ -143,7 +143,9 @@ class C16(Check):
                 "Pox.C16.ip6_canonical", "Pox.C16.ip6_masks", "Pox.C16.ip6_in_network_iff", "Pox.C16.ip4_repr",
                 "Pox.C16.ip4_raw_text", "Pox.C16.order_total", "Pox.C16.eth_forms", "Pox.C16.ip6_rejects_defect",
                 "Pox.C16.ip6_rejects_witnesses", "Pox.C16.eth_loose12_rejected", "Pox.C16.eth_long_group_defect",
-                "Pox.C16.eth_int_leniency_defect", "Pox.C16.cidr_leniency_defect"]
+                "Pox.C16.eth_int_leniency_defect", "Pox.C16.cidr_leniency_defect",
+                "Pox.C16.ip6_parse_spec", "Pox.C16.ip6_unsupported_witnesses", "Pox.C16.ip4_parse_spec", "Pox.C16.classful_inference",
+                "Pox.C16.hash_consistent", "Pox.C16.eth_parse_spec", "Pox.C16.eth_seq", "Pox.C16.eth_seq_length_defect"]
     anchors = [("pox/lib/addresses.py", 61, 88), ("pox/lib/addresses.py", 98, 144), ("pox/lib/addresses.py", 199, 254),
                ("pox/lib/addresses.py", 267, 353), ("pox/lib/addresses.py", 357, 386), ("pox/lib/addresses.py", 408, 423),
                ("pox/lib/addresses.py", 437, 544), ("pox/lib/addresses.py", 562, 567), ("pox/lib/addresses.py", 593, 595),
@@ -164,12 +166,16 @@ class C16(Check):
                   "every d < 2^64; IPv6 print->parse round trip for every 16-byte address and all 12 to_str option combinations (incl. mixed notation); "
                   "RFC 5952 shape of str(IPAddr6) (longest, leftmost zero run of length >= 2, lower-case groups without leading zeros, ::ffff:a.b.c.d for "
                   "mapped addresses); byte-order views of IPAddr; trichotomy/transitivity of <, == <=> equal bytes; every documented EthAddr text form. "
-                  "Defects kept as decided witnesses: D15 (ip6_rejects_defect/_witnesses), EthAddr and parse_cidr leniency.")
+                  "Phase 2: the parser returns the RFC 4291 denotation of EVERY valid IPv6 text (ip6_parse_spec; the refused valid texts are exactly "
+                  "unsupported6: leading/trailing '::' for a single group); IPAddr(text) accepts exactly the inet_ntoa texts (ip4_parse_spec); "
+                  "infer_netmask / parse_cidr without a slash are the classful rules for all addresses; EthAddr(text) = reference definition "
+                  "(eth_parse_spec) and the sequence constructors (eth_seq); equal => equal hash on all three types (hash_consistent). "
+                  "Defects kept as decided witnesses: D15 (ip6_rejects_defect/_witnesses), EthAddr and parse_cidr leniency, eth_seq_length_defect.")
     level_note = ("Trusted: Lean kernel + propext/Classical.choice/Quot.sound, the hand-written model, the harness. The model is tied to the code only by the "
                   "differential run (all 33/129 masks, per-octet sweeps, all 256 IPv6 zero patterns x 12 print options, every Ethernet form, dpid boundaries, "
-                  "grammar mutations). NOT proved, only tested against ipaddress/RFC reference: that every *valid* IPv6/IPv4 text parses to the right bytes "
-                  "(only printed texts are covered by the round-trip theorem), classful inference in parse_cidr, IPv6 parse_cidr text, hashing, immutability, "
-                  "non-text constructor forms. libc inet_aton is outside the model (canonical dotted quads only).")
+                  "grammar mutations). NOT proved, only tested against ipaddress/RFC reference: IPv6 parse_cidr text, immutability (a Python-object notion: "
+                  "the model has values only; the harness checks setattr/delattr are refused and _value is int/bytes), copy/None/IPAddr->IPAddr6 constructor forms. "
+                  "The denotations denote6/ethDenote in Proofs/Addr/Spec.lean are trusted transcriptions of RFC 4291 §2.2 / the EthAddr docstring. libc inet_aton is outside the model (canonical dotted quads only).")
     rule = ("case = one operation (parse/print/compare/mask/membership/cidr/dpid) with its inputs, several addresses batched per case; "
             "distinct = sha1 of canonical case; non-trivial = the real code returned a value (no exception) or the input was malformed and rejected")
     coverage_cases = 20000
@@ -356,6 +362,9 @@ class C16(Check):
                   "1:2:3:4:5:6:7", "01:23:45:67:89:ag", "0123456789ag", "", "01.23.45.67.89.ab", "1_:2:3:4:5:6", "-1:2:3:4:5:6", "1::3:4:5:6",
                   "01:23:45:67:89:ab ", "01 23 45 67 89 ab", "1:2:3:4:5:1ff"]:
             c.append({"op": "eth_text", "t": t})
+        for vals in ([1, 2, 3, 4, 5, 6], [0] * 6, [255] * 6, [1, 2, 3], [], [1, 2, 3, 4, 5, 6, 7], [1, 2, 3, 4, 5, 256], [-1, 2, 3, 4, 5, 6]):
+            for kind in ("list", "tuple"): c.append({"op": "eth_seq", "kind": kind, "vals": vals})
+        c.append({"op": "eth_seq", "kind": "bytearray", "vals": [1, 2, 3, 4, 5, 6]}); c.append({"op": "eth_seq", "kind": "bytearray", "vals": [1, 2]})
         # --- dpids
         for d in [0, 1, 0xff, 0x100, 0xffffffffffff, 0x1000000000000, 0x1000000000001, 0xffff000000000000, 0xffffffffffffffff,
                   0x7fffffffffffffff, 0x8000000000000000, 0x0001020304050607, 0x00ab000000000000, 2 ** 64, 2 ** 64 + 1]:
@@ -450,6 +459,11 @@ class C16(Check):
                 yield {"op": "bytes_cmp", "kind": "eth", "a": e.hex(), "b": rng.choice([e, f]).hex()}
         for _ in range(R(80, 1000)):
             yield {"op": "misc", "ip4": self.r4(rng.getrandbits(32)), "ip6": self.rand6(rng).hex(), "eth": rng.getrandbits(48).to_bytes(6, "big").hex()}
+        for _ in range(R(150, 2000)):
+            n = rng.choice([6, 6, 6, 6, rng.randrange(0, 10)])
+            vals = [rng.choice([rng.randrange(256), rng.randrange(256), 255, 0, rng.randrange(-3, 260)]) for _ in range(n)]
+            kind = rng.choice(["list", "tuple", "bytearray"]) if all(0 <= v < 256 for v in vals) else rng.choice(["list", "tuple"])
+            yield {"op": "eth_seq", "kind": kind, "vals": vals}
         # dpids: boundaries + random
         for _ in range(R(600, 15000)):
             d = rng.choice([rng.getrandbits(64), rng.getrandbits(48), rng.getrandbits(16) << 48, (1 << rng.randrange(65)) - rng.randrange(2),
@@ -503,6 +517,17 @@ class C16(Check):
             except Exception as e:
                 imm.append(type(e).__name__)
         ex["immutable"] = imm
+        ex["value_type"] = type(x._value).__name__
+        ex["hash_of_value"] = hash(x) == hash(x._value)
+        try:
+            y = ctor(text)
+            try:
+                del y._value
+                ex["delattr"] = "deleted"
+            except (TypeError, AttributeError) as e:
+                ex["delattr"] = type(e).__name__
+        except Exception as e:
+            ex["delattr"] = "ctor:" + type(e).__name__
         return ex
 
     def _misc(self, case):
@@ -552,7 +577,7 @@ class C16(Check):
 
     def _ip4view(self, x):
         return {"raw": x.raw.hex(), "value": x._value, "str": str(x), "un": x.toUnsigned(networkOrder=True), "uh": x.toUnsigned(),
-                "sn": x.toSigned(networkOrder=True), "sh": x.toSigned()}
+                "sn": x.toSigned(networkOrder=True), "sh": x.toSigned(), "hash": hash(x)}
 
     def impl(self, case):
         A, U = self.A, self.U
@@ -653,6 +678,10 @@ class C16(Check):
                 ex["from_bare"] = A.EthAddr(x.to_str("")).raw.hex() if False else A.EthAddr("".join("%02x" % b for b in x.raw)).raw.hex()
                 ex["len"] = len(x.raw)
                 return {"view": {"raw": x.raw.hex(), "str": str(x), "dash": x.to_str("-")}, "extra": ex}
+            if op == "eth_seq":
+                seq = {"list": list, "tuple": tuple, "bytearray": bytearray}[case["kind"]](case["vals"])
+                x = A.EthAddr(seq)
+                return {"view": {"raw": x.raw.hex()}, "extra": {"str": str(x)}}
             if op == "dpid_str":
                 s = U.dpid_to_str(case["d"], alwaysLong=case["long"])
                 return {"view": {"str": s, "back": U.str_to_dpid(s)}, "extra": {"bytes_form": U.dpid_to_str(struct.pack("!Q", case["d"]), case["long"])}}
@@ -675,7 +704,7 @@ class C16(Check):
             if k in self.TEXT_KEYS:
                 if any(ord(ch) > 127 for ch in v): return None
                 r[k] = hx(v)
-            elif k != "kind":
+            elif k != "kind" or case["op"] == "eth_seq":
                 r[k] = v
         return r
 
@@ -713,6 +742,9 @@ class C16(Check):
             if ex.get("hash_eq") is not True: return "%s: equal addresses hash differently" % kind
             if ex.get("eq_text") is not True: return "%s: address != its own text" % kind
             if ex.get("immutable") != ["TypeError", "TypeError"]: return "%s: not immutable (%s)" % (kind, ex.get("immutable"))
+            if ex.get("value_type") not in ("int", "bytes"): return "%s: _value is a mutable %s" % (kind, ex.get("value_type"))
+            if ex.get("hash_of_value") is not True: return "%s: hash is not a function of the value" % kind
+            if ex.get("delattr") == "deleted": return "immutable:delattr"
             return None
 
         if op in ("ip4_text", "ip4_raw", "ip4_int"):
@@ -864,6 +896,12 @@ class C16(Check):
             if ex["repr"] != "EthAddr('%s')" % canon: return "eth: repr %r" % ex["repr"]
             return common_extras("eth", want.hex())
 
+        if op == "eth_seq":
+            vals = case["vals"]
+            if any(v < 0 or v > 255 for v in vals): return None if rejected else "eth-seq:accepts:out-of-range"
+            if len(vals) != 6: return None if rejected else "eth-seq:accepts:wrong-length"
+            if rejected or v["raw"] != bytes(vals).hex(): return "eth: sequence %r gives %s" % (vals, v)
+            return None
         if op == "dpid_str":
             d = case["d"]
             if d >= 1 << 64: return None if rejected else "dpid: %d accepted" % d
@@ -907,7 +945,7 @@ class C16(Check):
         return (a, b)
 
     def finding_key(self, case, obs, failure):
-        if re.match(r"(ip4|ip6|eth)-(text|cidr|mask):", failure): return failure
+        if re.match(r"(ip4|ip6|eth)-(text|cidr|mask|seq):", failure) or failure.startswith("immutable:"): return failure
         if failure.startswith("misc:"): return failure[5:] if failure.startswith("misc:ip6-ctor:") else failure
         return "%s:%s" % (case["op"], failure.split(":")[0][:40])
 
